@@ -90,7 +90,7 @@ func (s *c14Sink) WriteTo([]byte, netip.AddrPort) error {
 	}
 	return nil
 }
-func (s *c14Sink) Close() error                         { return nil }
+func (s *c14Sink) Close() error { return nil }
 
 // ---- reply builders (gopacket) ------------------------------------------------------------------
 
